@@ -115,6 +115,8 @@ func main() {
 		if bad > 0 {
 			os.Exit(2)
 		}
+	case "neutral":
+		os.Exit(runNeutral(repoDir()))
 	case "selftest":
 		os.Exit(runSelftest())
 	case "dump":
